@@ -895,12 +895,35 @@ def lints():
                 name = n
         return name
     muts = [owner(m.start()) for m in re.finditer(r"self\s*\.\s*global\s*\.\s*(types|constants|functions)\s*\.\s*insert|self\s*\.\s*global\s*\.\s*context\s*\.", code)]
-    okm = set(muts) <= {"types", "constant", "function_declaration"}
+    # a private helper counts as part of a declaration pass when every one of its call sites is in one
+    # (or in such a helper): `declare_type` called only from `types` changes nothing
+    decl_ok = {"types", "constant", "function_declaration"}
+    for _ in range(4):
+        for f in set(muts) - decl_ok:
+            if f is None or re.search(r"\bpub(?:\([a-z]+\))?\s+fn\s+%s\b" % f, code):
+                continue
+            callers = [owner(m.start()) for m in re.finditer(r"(?:self\s*\.|Self::)\s*%s\s*\(" % f, code)]
+            if callers and set(callers) <= decl_ok:
+                decl_ok = decl_ok | {f}
+    okm = set(muts) <= decl_ok
     add("globals mutated only by the declaration passes", okm, ["C15", "C16", "C17", "C01", "C02", "C14"],
         "mutations in %s" % sorted(set(str(x) for x in muts)))
     # 3. every body starts from a parentless block
-    add("function_body starts from BlockState::new(None)",
-        re.search(r"pub fn function_body[\s\S]{0,400}?BlockState::new\((?:None|Option::None|Default::default\(\))\)", code) is not None,
+    # (function_body itself, or a private helper it calls before anything else touches a block state)
+    def raw3(name):
+        m3 = re.search(r"\bfn\s+%s\s*[(<]" % name, code)
+        if not m3:
+            return ""
+        nxt = re.search(r"\n(?:    )?(?:pub(?:\([a-z]+\))? )?(?:const )?fn\s+[a-z_0-9]+\s*[(<]", code[m3.end():])
+        return code[m3.end(): m3.end() + (nxt.start() if nxt else len(code))]
+    fb3 = raw3("function_body")
+    root_pat = r"BlockState::new\((?:None|Option::None|Default::default\(\))\)"
+    first_call = re.search(r"(?:self\s*\.|Self::)\s*([a-z_0-9]+)\s*\(", fb3)
+    ok3 = re.search(root_pat, fb3[:400]) is not None or (
+        first_call is not None and first_call.start() < 400
+        and re.search(root_pat, raw3(first_call.group(1))[:600]) is not None
+        and not re.search(r"\bpub\s+fn\s+%s\b" % first_call.group(1), code))
+    add("function_body starts from BlockState::new(None)", ok3 and "BlockState::new(Some" not in fb3,
         ["C17", "C09", "C12", "C10"])
     # 4. run = three passes over data: imports+types, declarations, bodies (private helpers that
     # run calls are expanded in place, so that splitting run into run_xxx methods changes nothing)
@@ -911,7 +934,7 @@ def lints():
         m2 = re.search(r"\bfn\s+%s\s*[(<]" % name, code)
         if not m2:
             return ""
-        nxt = re.search(r"\n    (?:pub )?(?:const )?fn\s+[a-z_0-9]+\s*[(<]", code[m2.end():])
+        nxt = re.search(r"\n(?:    )?(?:pub(?:\([a-z]+\))? )?(?:const )?fn\s+[a-z_0-9]+\s*[(<]", code[m2.end():])
         return code[m2.end(): m2.end() + (nxt.start() if nxt else len(code))]
 
     def expand4(body, depth=0):
@@ -941,7 +964,7 @@ def lints():
         m2 = re.search(r"\bfn\s+%s\s*[(<]" % name, code)
         if not m2:
             return ""
-        nxt = re.search(r"\n    (?:pub )?(?:const )?fn\s+[a-z_0-9]+\s*[(<]", code[m2.end():])
+        nxt = re.search(r"\n(?:    )?(?:pub(?:\([a-z]+\))? )?(?:const )?fn\s+[a-z_0-9]+\s*[(<]", code[m2.end():])
         return code[m2.start(): m2.end() + (nxt.start() if nxt else len(code))]
 
     all_rust_fns = set(re.findall(r"\bfn\s+([a-z_0-9]+)\s*[(<]", code))
@@ -956,7 +979,8 @@ def lints():
         seen.add(name)
         body = rust_fn_raw(name)
         out = body
-        for callee in set(re.findall(r"(?:self\s*\.|Self::)\s*([a-z_0-9]+)\s*\(", body)):
+        # (methods called on self / Self, and private free functions called by their bare name)
+        for callee in set(re.findall(r"(?:self\s*\.\s*|Self::\s*|(?<![\w.:]))([a-z_0-9]+)\s*\(", body)):
             if callee in all_rust_fns and callee not in entry_fns and callee != name:
                 out += rust_fn(callee, seen)
         return out
@@ -1007,7 +1031,11 @@ def lints():
         if not rk <= ck or not (ck - {"TypeNotFound"}) <= rk | {"TypeNotFound"}:
             if rk != ck and not (rk | {"TypeNotFound"}) == (ck | {"TypeNotFound"}):
                 bad_err.append("%s: rust %s / model %s" % (rname, sorted(rk), sorted(ck)))
-        rm = set(instr_of_method[m2] for m2 in re.findall(r"borrow_mut\(\)\s*\.\s*([a-z_]+)\(", rsrc) if m2 in instr_of_method)
+        # an instruction is pushed by calling its method on a block state: on `x.borrow_mut()` or on a
+        # borrow bound to a name first; the analyzer's own methods of the same names (`self.let_binding`,
+        # `Self::binding`) are not pushes
+        rm = set(instr_of_method[m2] for recv, m2 in re.findall(r"([A-Za-z_0-9]+|\))\s*\.\s*([a-z_]+)\s*\(", rsrc)
+                 if m2 in instr_of_method and recv not in ("self", "Self"))
         cm = set(re.findall(r"\b(I(?:ExprValue|ExprConst|ExprStruct|ExprOp|Call|Let|Bind|FnRetLabel|FnRet|SetLabel|JumpTo|IfCondExpr|CondExpr|JumpFnRet|Logic|IfCondLogic|FnArg))\b", csrc))
         if rm != cm:
             bad_ins.append("%s: rust %s / model %s" % (rname, sorted(rm), sorted(cm)))
